@@ -552,6 +552,7 @@ package values
 //@ panics nothing
 //@ requires inrange: 0 <= i && i < len(s) && 0 <= j && j < len(s)
 //@ assigns nothing
+//@ ensures order: result == values.Less(s[i], s[j])
 
 //@ func values.NewRange
 //@ props C11 C01
